@@ -239,9 +239,7 @@ class ReadFile:
         avail = n - self.pos
         if self.node.content is not None and not isinstance(n, SymInt):
             pass
-        if isinstance(size, SymInt):
-            raise ModelGap("read(symbolic size)")
-        if size is None or size < 0:
+        if size is None or (not isinstance(size, SymInt) and size < 0) or (isinstance(size, SymInt) and truth(size < 0)):
             k = avail
         else:
             k = size if truth(size <= avail) else avail
